@@ -31,7 +31,8 @@ EXPLANATION = (
     'the lexer. R6: the lexer enters its newline-ignoring state on `(` by push_state and leaves '
     'it on `)` by pop_state (nesting preserved). Decides these structural parts; the lexer\'s '
     'comment/blank-line/indent arithmetic is value-level and not decided.'
-    ' RD (decision drift, stonelint.conddrift): the tests of the functions this property is anchored in (stonelint.ownership) are compared with reference/conditions.json; a relation, polarity or connective changed over the same operands, or an operand purely added or dropped, is a violation; re-spellings and new or removed tests are not claimed.')
+    ' RD (decision drift, stonelint.conddrift): the tests of the functions this property is anchored in (stonelint.ownership) are compared with reference/conditions.json; a relation, polarity or connective changed over the same operands, or an operand purely added or dropped, is a violation; re-spellings and new or removed tests are not claimed.'
+    " RE (expression drift, stonelint.exprdrift): the same functions' attribute names, variable reads, simple statements, calls and arithmetic/slice literals are compared with reference/expressions.json; a substituted attribute or variable, a dropped call or assignment, swapped arguments or a changed literal is a violation; any other edit is not claimed.")
 ASSUMPTIONS = [
     'fields, tags and examples keep declaration order and namespace docs concatenate in file '
     'order by design (documented); they are not subject to R1',
@@ -342,3 +343,5 @@ def run(pm, ctx):
     from ..conddrift import run_decisions
     from ..ownership import OWN
     run_decisions(pm, ctx, 'C11-RD', OWN['C11'])
+    from .. import exprdrift
+    exprdrift.run(pm, ctx, 'C11-RE', OWN['C11'])
